@@ -399,3 +399,19 @@ Proof.
   destruct (commit_scan_spec others maj s (length (log s))) as [E|(L & e & A & B & C)]; [congruence|].
   split; auto. split; auto. exists e; auto.
 Qed.
+
+(* the election restriction (Raft 5.4.1): a vote is granted only to a candidate whose last log
+   position (term first, then index) is at least the voter's *)
+Theorem vote_restriction : forall others maj s from t lli llt s' o to r,
+  handle_msg others maj s from (RV t lli llt) = Some (s', o) -> In (to, r) o ->
+  pair_ge (llt, lli) (last_log_position s) = true /\ to = from /\ r = RVR (term s') /\ voted_for s' = Some from.
+Proof.
+  intros others maj s from t lli llt s' o to r H Hin. cbn [handle_msg] in H.
+  destruct (observe_term s t) as [s1 cur] eqn:Eo.
+  assert (last_log_position s1 = last_log_position s) as EL.
+  { unfold observe_term in Eo. destruct (term s <? t); inversion Eo; subst; reflexivity. }
+  destruct cur; cbn [negb] in H; [|inversion H; subst; destruct Hin].
+  destruct (pair_ge (llt, lli) (last_log_position s1)) eqn:G; cbn [andb] in H; [|inversion H; subst; destruct Hin].
+  destruct (match voted_for s1 with None => true | Some v => v =? from end); inversion H; subst; [|destruct Hin].
+  destruct Hin as [E|[]]. inversion E; subst. rewrite <- EL. cbn. auto.
+Qed.
